@@ -3,7 +3,7 @@ installed in-place extension (so that a change to a .pyx / _uscan.cc is what the
 
 /venv imports mwlib and qs straight from <repo>/src (development install), so .py edits are
 live.  The generated .c files next to the .pyx sources are tracked in git, so the build happens
-in a scratch directory (same Extension names and compiler directives as setup.py) and only the
+in a scratch directory (same Extension names as setup.py, Cython's default directives like the installed build) and only the
 git-ignored .so is copied back.  re2c is not installed: _uscan.re cannot be regenerated,
 _uscan.cc is the scanner source.
 """
@@ -30,7 +30,10 @@ from setuptools import Extension, setup
 from Cython.Build import cythonize
 exts = [Extension(%(name)r, sources=[%(src)r], extra_compile_args=["-Wno-unreachable-code-fallthrough"])]
 if %(src)r.endswith(".pyx"):
-    exts = cythonize(exts, compiler_directives={"language_level": 3, "boundscheck": False, "wraparound": False})
+    # default directives, like the extension modules installed in this sandbox (and the tracked
+    # .c files) were generated; setup.py's boundscheck=False / wraparound=False build turns
+    # `no_key_seen[-1]` in templ/nodes.pyx into an out-of-bounds read (see DESIGN.md findings)
+    exts = cythonize(exts, compiler_directives={"language_level": 3})
 setup(name="x", ext_modules=exts, script_args=["build_ext", "--build-lib", "out", "--build-temp", "tmp"])
 '''
 
